@@ -10,6 +10,7 @@ from . import core_ops as ops
 from . import backtest_run as btr
 from . import algos_select as sel
 from . import algos_rebalance as rb
+from . import core_getters as gt
 
 UPD = [("date", "date"), ("data", "none"), ("inow", "optint")]
 
@@ -57,12 +58,20 @@ def build():
     verifiers.pop("bt.algos.RunPeriod.compare_dates")
     for c, v in flow.contracts():
         reg(c, v)
+    from pyvc.contracts import RelationalContract as _RC
+
+    getter_contracts = {}
+    for (cls, g) in gt.GETTERS:
+        c = _RC("bt.core.%s.%s" % (cls, g), [], None, self_cls=cls, note="read accessor: refresh iff pending, returns the field / own series cut at own date")
+        getter_contracts[c.qualname] = c
+        verifiers[c.qualname] = gt.verify_getter
     for c, v in rb.contracts():
         reg(c, v)
     for c, v in sel.contracts():
         reg(c, v)
         if v is None:
             verifiers.pop(c.qualname)
+    verifiers["bt.core.StrategyBase.universe"] = gt.verify_universe_getter
     for c, v in btr.contracts():
         reg(c, v)
         if v is None:
@@ -86,4 +95,4 @@ def build():
     # search of allocate separate paths are much easier for the solver
     options = {"bt.core.SecurityBase.allocate": dict(merge=False)}
     concrete_checks = {"bt.core.SecurityBase.allocate": ca.alloc_concrete_check}
-    return dict(contracts=C, verifiers=verifiers, inline=inline, loops=loops, options=options, concrete_checks=concrete_checks)
+    return dict(contracts=C, verifiers=verifiers, inline=inline, loops=loops, options=options, concrete_checks=concrete_checks, getter_contracts=getter_contracts)
